@@ -72,11 +72,11 @@ pub fn run(ctx: &mut Ctx) {
     let rs = v_refspec();
     crate::spec::assert_spec_matches::<V>(&rs);
     let p = DocParams {
-        max_nodes: ctx.tier.pick(5, 6),
+        max_nodes: ctx.tier.pick(6, 7),
         globals: vec![ID_TAG, ID_VOID],
         exclude: vec![],
         unknown_subsets: true,
-        devs: ctx.tier.pick(0, 1),
+        devs: 0,
         payload_classes: false,
         big_payloads: false,
         noncanonical: false,
@@ -110,6 +110,12 @@ pub fn run(ctx: &mut Ctx) {
         ctx.validated += 1;
         ctx.leave();
     }
+    let mut plist = vec![p.clone()];
+    if !ctx.quick() {
+        // one encoding deviation (8-byte unknown marker / 8-byte size field) on the forests up to 6 elements
+        plist.push(DocParams { max_nodes: 6, devs: 1, ..p.clone() });
+    }
+    for p in plist {
     docs::for_each_doc(ctx, &rs, &p, &mut |ctx, doc| {
         if gen::has_ambiguous_global_after_unknown(&rs, doc) {
             ctx.count("excluded_ambiguous_global", 1);
@@ -156,4 +162,5 @@ pub fn run(ctx: &mut Ctx) {
         ctx.leave();
         !ctx.should_stop()
     });
+    }
 }
